@@ -14,6 +14,7 @@ import (
 
 	"github.com/wkhere/bcl"
 
+	"verif/bc"
 	"verif/gen"
 	"verif/harness"
 	"verif/ref"
@@ -267,6 +268,19 @@ func TestC18(t *testing.T) {
 		cfg.PIllegal = 12
 		cfg.PDivZero = 20
 		p, _ := gen.GenProg(t, cfg)
+		if gen.Chance(t, 12, "plantstr") {
+			// string constants at the sizes where the dump's buffers and
+			// length prefixes change class, alone and in pairs a few bytes apart
+			n := drawSize(t, "c18str")
+			p.Stmts = append(p.Stmts, &gen.Stmt{K: "print", E: &gen.Expr{K: "str", T: gen.QuotePlain(longString(t, n))}})
+			if gen.Chance(t, 40, "plantstr2") {
+				m := n + gen.Pick(t, "c18delta", []int{7, 8, 9, -8, 1})
+				if m < 0 {
+					m = 0
+				}
+				p.Stmts = append(p.Stmts, &gen.Stmt{K: "print", E: &gen.Expr{K: "str", T: gen.QuotePlain(longString(t, m))}})
+			}
+		}
 		o := ref.Run(p)
 		if o.Unspecified != "" && o.Unspecified != "comparison with NaN" {
 			rec.Case(false, harness.Hash("skip"), "skipped:"+o.Unspecified)
@@ -385,6 +399,12 @@ func TestC18(t *testing.T) {
 				// the documented derivation: the .bcl suffix becomes .bcb
 				dumpArg, bf = "--bdump", strings.TrimSuffix(fileArg, ".bcl")+".bcb"
 			}
+			if gen.Chance(t, 35, "stalebfile") {
+				// BFILE exists already and is longer than the new dump (an
+				// earlier, larger compilation): it must be replaced, not patched
+				must(os.WriteFile(filepath.Join(dir, bf), append([]byte{0xFC, 0x6C, 1, 1}, bytes.Repeat([]byte{0xEE}, 90000)...), 0o644))
+				feats = append(feats, "bdump-over-existing-file")
+			}
 			argvD := placeFile(t, append(spellFlags(t, fl), dumpArg), fileArg)
 			gd := runCLI(dir, stdin, argvD...)
 			c.Argvs = append(c.Argvs, argvD)
@@ -400,6 +420,10 @@ func TestC18(t *testing.T) {
 				if rerr != nil || len(b) < 4 || b[0] != 0xFC || b[1] != 0x6C || b[2] != 1 || b[3] != 1 {
 					rec.Fail(t, c, "%s did not write a version 1.1 bytecode file (%v, %d bytes)", dumpArg, rerr, len(b))
 				}
+				f1, derr := bc.Decode(b)
+				if derr != nil {
+					rec.Fail(t, c, "%s wrote a file that the independent decoder cannot read completely: %v (%d bytes)", dumpArg, derr, len(b))
+				}
 				loadArg := "--bload=" + bf
 				var argvL []string
 				if gen.Bool(t, "loadasfile") {
@@ -414,6 +438,30 @@ func TestC18(t *testing.T) {
 					rec.Case(true, harness.Hash(src, strings.Join(argvL, " ")), feats...)
 					rec.Fail(t, c, "bcl %v does not reproduce bcl %v:\nstatus %d vs %d\nstdout %q\n    vs %q\nstderr %q\n    vs %q", argvL, argv1, gl.Status, got.Status,
 						clip(gl.Stdout, 500), clip(stripPstats(got.Stdout), 500), clip(gl.Stderr, 300), clip(got.Stderr, 300))
+				}
+				// load and dump in one run, into the file being loaded or into another
+				if gen.Chance(t, 40, "loadanddump") {
+					bf2 := gen.Pick(t, "bf2", []string{bf, bf, "copy.bcb"})
+					argvLD := append(spellFlags(t, fl), "--bload="+bf, "--bdump="+bf2)
+					if gen.Bool(t, "dumpfirst") {
+						argvLD = append(spellFlags(t, fl), "--bdump="+bf2, "--bload="+bf)
+					}
+					gld := runCLI(dir, "", argvLD...)
+					c.Argvs = append(c.Argvs, argvLD)
+					feats = append(feats, "load-and-dump")
+					if gld != gl {
+						c.Note = "bload+bdump"
+						rec.Fail(t, c, "bcl %v does not behave like bcl %v:\nstatus %d vs %d\nstdout %q\n    vs %q\nstderr %q\n    vs %q", argvLD, argvL, gld.Status, gl.Status,
+							clip(gld.Stdout, 500), clip(gl.Stdout, 500), clip(gld.Stderr, 300), clip(gl.Stderr, 300))
+					}
+					b2, rerr2 := os.ReadFile(filepath.Join(dir, bf2))
+					f2, derr2 := bc.Decode(b2)
+					if rerr2 != nil || derr2 != nil {
+						rec.Fail(t, c, "bcl %v left %s unreadable: %v %v (%d bytes)", argvLD, bf2, rerr2, derr2, len(b2))
+					}
+					if !bytes.Equal(f1.Code, f2.Code) || fmt.Sprint(f1.Consts) != fmt.Sprint(f2.Consts) || fmt.Sprint(f1.Positions) != fmt.Sprint(f2.Positions) || fmt.Sprint(f1.LFs) != fmt.Sprint(f2.LFs) {
+						rec.Fail(t, c, "bcl %v wrote a different program into %s than the one it loaded", argvLD, bf2)
+					}
 				}
 			}
 		}
